@@ -495,9 +495,15 @@ def gen_lmeasure_refine(rng, tier, shard, nshards, boost):
 def check_wacc(inp):
     cs = np.array(inp["cs"], dtype=float)
     ws = np.array(inp["ws"], dtype=float)
-    base = mir_eval.chord.weighted_accuracy(cs, ws)
+    try:
+        base = mir_eval.chord.weighted_accuracy(cs, ws)
+    except Exception as e:  # noqa: BLE001 - equal lengths, no negative weight: nothing may be raised
+        return "weighted_accuracy raised %r on comparisons / non-negative weights of one length" % (e,)
     for k in inp["scales"]:
-        sc = mir_eval.chord.weighted_accuracy(cs, ws * k)
+        try:
+            sc = mir_eval.chord.weighted_accuracy(cs, ws * k)
+        except Exception as e:  # noqa: BLE001
+            return "weighted_accuracy raised %r after all weights were multiplied by %r" % (e, k)
         if not _same(base, sc, 0.0):
             return "weighted_accuracy changes from %r to %r when all weights are multiplied by %r" % (base, sc, k)
     valid = [(Fr(c), Fr(w)) for c, w in zip(inp["cs"], inp["ws"]) if c >= 0]
